@@ -55,7 +55,8 @@ type HonestOpts struct {
 	Shape    QuoteShape
 	Window   Window
 	Platform *Platform
-	Revoked  int // number of unrelated serials in each CRL
+	Revoked  int                      // number of unrelated serials in each CRL
+	SgxExt   func(p *Platform) []byte // how the leaf's SGX extension is encoded (nil: canonical element order)
 }
 
 // Honest builds a fully honest world: everything in date, UpToDate, unrevoked.
@@ -69,7 +70,11 @@ func Honest(r *mrand.Rand, o HonestOpts) *World {
 		win = Far
 	}
 	w := &World{P: p, Extra: map[string]Resp{}}
-	w.PKI = NewPKI(win, SgxExtension(p))
+	ext := SgxExtension(p)
+	if o.SgxExt != nil {
+		ext = o.SgxExt(p)
+	}
+	w.PKI = NewPKI(win, ext)
 	w.Q, w.Att = HonestQuote(r, w.PKI, p, o.Shape)
 	w.Tcb = HonestTcbInfo(p)
 	w.Qe = HonestQeID(w.Q.QeReport)
